@@ -146,6 +146,10 @@ type RIB struct {
 	// can be fully resolved in the RIB. In the current implementation it
 	// is called only for IPv4 entries.
 	resolvedEntryHook ResolvedEntryFn
+
+	// postChangeHook is the hook that was last supplied to SetPostChangeHook, it
+	// is remembered so that network instances that are created later have it too.
+	postChangeHook RIBHookFn
 }
 
 // RIBHolder is a container for a set of RIBs.
@@ -339,6 +343,7 @@ type pendingEntry struct {
 // SetPostChangeHook assigns the supplied hook to all network instance RIBs within
 // the RIB structure.
 func (r *RIB) SetPostChangeHook(fn RIBHookFn) {
+	r.postChangeHook = fn
 	for _, nir := range r.niRIB {
 		nir.mu.Lock()
 		nir.postChangeHook = fn
@@ -378,7 +383,9 @@ func (r *RIB) AddNetworkInstance(name string) error {
 		rhOpt = append(rhOpt, DisableForwardReferences())
 	}
 
-	r.niRIB[name] = NewRIBHolder(name, rhOpt...)
+	nir := NewRIBHolder(name, rhOpt...)
+	nir.postChangeHook = r.postChangeHook
+	r.niRIB[name] = nir
 	return nil
 }
 
